@@ -151,11 +151,22 @@ func JSONGetTime(val *fastjson.Value, prop string) time.Time {
 	return t
 }
 
+// unmarshalXSDDuration reads an xsd:duration; the parser indexes past the end of some malformed values ("-"), which must not
+// take down the decoder of the document they came in.
+func unmarshalXSDDuration(str []byte) (d time.Duration, ok bool) {
+	defer func() {
+		if r := recover(); r != nil {
+			d, ok = 0, false
+		}
+	}()
+	err := xsd.Unmarshal(str, &d)
+	return d, err == nil
+}
+
 func JSONGetDuration(val *fastjson.Value, prop string) time.Duration {
 	if str := val.Get(prop).GetStringBytes(); len(str) > 0 {
 		// TODO(marius): this needs to be replaced to be compatible with xsd:duration
-		var x time.Duration
-		if err := xsd.Unmarshal(str, &x); err == nil {
+		if x, ok := unmarshalXSDDuration(str); ok {
 			return x
 		}
 		d, _ := time.ParseDuration(string(str))
